@@ -474,7 +474,8 @@ class KExport(Op):
     def setup(s, ctx):
         t = sym(ctx, 't', EW)
         ctx.by_value = True
-        ctx.inst.summaries = {'is_part_of_the_tree': summary_in_tree}
+        if [f for f in ctx.P.find('key::array', 'is_part_of_the_tree') if f.nargs == 2]:
+            ctx.inst.summaries = {'is_part_of_the_tree': summary_in_tree}
         return _entry(ctx.P, 'key::array', 'into_ordered_vec', 2, 'KeyExpTree'), [ctx.tree, t], key_pre(ctx, t)
 
     def post(s, ctx, st):
@@ -510,6 +511,10 @@ class KExport(Op):
         return post
 
 
+class MissingEntry(Exception):
+    pass
+
+
 class KInTreeTest(Op):
     """key::array::is_part_of_the_tree(slot) == "slot is in the tree" for every slot 1..len-1 (used as a summary by the export step)"""
     name = 'is_part_of_the_tree'
@@ -517,6 +522,8 @@ class KInTreeTest(Op):
 
     def setup(s, ctx):
         i = sym(ctx, 'i', 32)
+        if not [f for f in ctx.P.find('key::array', 'is_part_of_the_tree') if f.nargs == 2]:
+            raise MissingEntry('key::array::is_part_of_the_tree')      # helper refactored away: nothing to summarise
         return _entry(ctx.P, 'key::array', 'is_part_of_the_tree', 2), [TREE, i], [z3.UGE(i, 1), z3.ULT(i, ctx.view.n)]
 
     def post(s, ctx, st):
@@ -614,7 +621,12 @@ def run_step(P, kind, opname, N, cube=None, max_expired=None, allow_growth=False
     ctx.view = View(inst, tree)
     f, it, w = inv_witness(ctx.view, 'pre')
     ctx.it = it
-    fn, args, pre = op.setup(ctx)
+    try:
+        fn, args, pre = op.setup(ctx)
+    except MissingEntry as ex:
+        return {'kind': kind, 'op': opname, 'N': N, 'paths': 0, 'obligations': 0, 'queries': 0, 'violations': [], 'unknown': 0, 'statuses': {},
+                'by_kind': {}, 'post_tags': {}, 'callbacks': 0, 'cb_snapshots_checked': 0, 'samples': [], 'vacuous': True,
+                'skipped_missing_entry': str(ex), 'wall_s': 0.0, 'stats': {}, 'fns': [], 'query_s': 0.0}
     solver = z3.SolverFor('QF_BV')
     solver.set('random_seed', seed)
     assumptions = f + pre + (cube(ctx) if cube else [])
